@@ -64,7 +64,18 @@ class SiMonitor:
             self.rec.count("si_out_of_scope_input")
             return
         fs = int(comp.frame_shift)
-        style = comp.frame_style
+        style = compmon.documented_style(comp, a)
+        if comp.frame_style != style and not getattr(comp, "_vf_style_reported", False):
+            try:
+                comp._vf_style_reported = True
+            except Exception:
+                pass
+            self.v("frame_style is %r; documented for frame_style=%r and a %s bank: %r" % (comp.frame_style, a.get("frame_style"),
+                   "zero-phase" if comp.bank.is_zero_phase else "non-zero-phase", style), check="frame_style")
+        if a.get("frame_style") is None:
+            self.rec.count("si_default_frame_style")
+        if a.get("window_function") is None:
+            self.rec.count("si_default_window")
         sup = comp.bank.supports
         if fs < 1 or not R.in_scope(sup, fs, style):
             self.rec.count("si_out_of_scope_config")
